@@ -1,53 +1,84 @@
-//! C08 — Dfs, Bfs, DfsPostOrder, Topo, depth_first_search on every storage type and `Reversed`.
+//! C08 — Dfs, Bfs, DfsPostOrder, Topo, depth_first_search on every storage type and on the graph
+//! adaptors.
+//!
+//! One abstract graph per case, one encoding per case; the `case <k> enc=<name>` line names it:
+//!
+//! * storage types (about 78 % of the `case_ty` cases, uniform among the applicable ones):
+//!   `graph-u32`, `graph-u8`, `stable` (vacancies), `reversed-graph` = `Reversed(&Graph)`, and for simple
+//!   graphs `matrix` (removed ids), `graphmap`, `csr`, directed only `list`; `matrix-directed` (full
+//!   view + Topo) is drawn before that for 12 % of the directed simple graphs;
+//! * adaptors (about 22 %, drawn from a forked random stream so that a case that stays on a storage
+//!   type is generated exactly as before the adaptors were added):
+//!   `reversed-stable` = `Reversed(&StableGraph)` with vacancies (5 %, view = reversed graph),
+//!   `edgefiltered-graph` / `edgefiltered-stable` = `&EdgeFiltered<&Graph|&StableGraph, F>` (4 % + 2 %;
+//!   F keeps a random subset of the abstract edge ids; view = same nodes, kept edges renumbered 0..k),
+//!   `nodefiltered-graph` / `nodefiltered-stable` = `&NodeFiltered<…, F>` (4 % + 2 %; F keeps a random
+//!   non-empty subset of the abstract node ids; view = induced subgraph, `nodes=` lists only the kept
+//!   nodes under their ORIGINAL ids),
+//!   `frozen-graph` = `&Frozen<&Graph>` (5 %, view = the plain graph; the visit traits of `&Frozen<G>`
+//!   delegate to `G` itself, so `G` has to be the reference type `&Graph`).
+//!
+//! Every walker runs on every encoding (`walk_basic`); Topo (`walk_topo`) wherever the encoding offers
+//! `IntoNeighborsDirected + IntoNodeIdentifiers + Visitable` (all adaptors do).
+//!
+//! Contract with the driver: every start node / `move_to` target / Bfs start / depth_first_search
+//! start / `Topo::with_initials` entry is drawn from `ids`, the abstract ids listed in `nodes=`.
 use crate::common::*;
 use crate::graphs::*;
 use crate::rng::Rng;
+use petgraph::graph::Frozen;
 use petgraph::visit::{
-    depth_first_search, Bfs, Control, Dfs, DfsEvent, DfsPostOrder, IntoNeighbors, IntoNeighborsDirected,
-    IntoNodeIdentifiers, Reversed, Topo, Visitable,
+    depth_first_search, Bfs, Control, Dfs, DfsEvent, DfsPostOrder, EdgeFiltered, EdgeRef, GraphProp,
+    IntoEdgesDirected, IntoNeighbors, IntoNeighborsDirected, IntoNodeIdentifiers, NodeFiltered, NodeIndexable,
+    Reversed, Topo, Visitable,
 };
 use petgraph::{Directed, Undirected};
 
-fn script(rng: &mut Rng, n: usize) -> String {
+/// uniform draw from the live abstract ids (same random stream as `pick_id(rng, ids)` when `ids = 0..n`)
+fn pick_id(rng: &mut Rng, ids: &[usize]) -> usize {
+    ids[rng.below(ids.len())]
+}
+
+fn script(rng: &mut Rng, ids: &[usize]) -> String {
     // n<s> new/move_to, t<k> take, a all, r reset
-    let mut v = vec![format!("n{}", rng.below(n))];
+    let mut v = vec![format!("n{}", pick_id(rng, ids))];
     match rng.below(5) {
         0 => v.push("a".into()),
         1 => {
             v.push(format!("t{}", 1 + rng.below(3)));
-            v.push(format!("n{}", rng.below(n)));
+            v.push(format!("n{}", pick_id(rng, ids)));
             v.push("a".into());
         }
         2 => {
             v.push("a".into());
-            v.push(format!("n{}", rng.below(n)));
+            v.push(format!("n{}", pick_id(rng, ids)));
             v.push("a".into());
-            v.push(format!("n{}", rng.below(n)));
+            v.push(format!("n{}", pick_id(rng, ids)));
             v.push("a".into());
         }
         3 => {
             v.push(format!("t{}", 1 + rng.below(4)));
             v.push("r".into());
-            v.push(format!("n{}", rng.below(n)));
+            v.push(format!("n{}", pick_id(rng, ids)));
             v.push("a".into());
         }
         _ => {
             v.push(format!("t{}", rng.below(3)));
-            v.push(format!("n{}", rng.below(n)));
+            v.push(format!("n{}", pick_id(rng, ids)));
             v.push(format!("t{}", 1 + rng.below(3)));
-            v.push(format!("n{}", rng.below(n)));
+            v.push(format!("n{}", pick_id(rng, ids)));
             v.push("a".into());
         }
     }
     v.join(",")
 }
 
-fn walk_basic<G>(ctx: &mut Ctx, rng: &mut Rng, g: G, n: usize, abs: &dyn Fn(G::NodeId) -> usize, conc: &dyn Fn(usize) -> G::NodeId)
+fn walk_basic<G>(ctx: &mut Ctx, rng: &mut Rng, g: G, ids: &[usize], abs: &dyn Fn(G::NodeId) -> usize, conc: &dyn Fn(usize) -> G::NodeId)
 where
     G: IntoNeighbors + Visitable + Copy,
     G::NodeId: PartialEq + Copy,
 {
-    if n == 0 {
+    if ids.is_empty() {
         return;
     }
     let tok = |o: Option<G::NodeId>| match o {
@@ -57,7 +88,7 @@ where
     for _ in 0..3 {
         // Dfs / DfsPostOrder with scripts
         for kind in ["dfs", "post"] {
-            let sc = if kind == "post" && rng.chance(60) { format!("n{},a", rng.below(n)) } else { script(rng, n) };
+            let sc = if kind == "post" && rng.chance(60) { format!("n{},a", pick_id(rng, ids)) } else { script(rng, ids) };
             let r = catch(|| {
                 let mut toks: Vec<String> = Vec::new();
                 let mut dfs = Dfs::empty(g);
@@ -93,7 +124,7 @@ where
             ctx.line(&format!("walk {} {}", kind, sc), &r.unwrap_or("panic".into()));
         }
         // Bfs
-        let s = rng.below(n);
+        let s = pick_id(rng, ids);
         let r = catch(|| {
             let mut b = Bfs::new(g, conc(s));
             let mut v = Vec::new();
@@ -105,7 +136,7 @@ where
         ctx.line(&format!("bfs {}", s), &r.unwrap_or("panic".into()));
         // depth_first_search with a control script
         let ns = 1 + rng.below(3);
-        let starts: Vec<usize> = (0..ns).map(|_| rng.below(n)).collect();
+        let starts: Vec<usize> = (0..ns).map(|_| pick_id(rng, ids)).collect();
         let len = rng.below(14);
         let sc: String = (0..len).map(|_| match rng.below(12) { 0 => 'b', 1 | 2 => 'p', _ => 'c' }).collect();
         let sc = if sc.is_empty() { "c".to_string() } else { sc };
@@ -139,7 +170,7 @@ where
     }
 }
 
-fn walk_topo<G>(ctx: &mut Ctx, rng: &mut Rng, g: G, n: usize, abs: &dyn Fn(G::NodeId) -> usize, conc: &dyn Fn(usize) -> G::NodeId)
+fn walk_topo<G>(ctx: &mut Ctx, rng: &mut Rng, g: G, ids: &[usize], abs: &dyn Fn(G::NodeId) -> usize, conc: &dyn Fn(usize) -> G::NodeId)
 where
     G: IntoNeighborsDirected + IntoNodeIdentifiers + Visitable + Copy,
     G::NodeId: PartialEq + Copy,
@@ -159,9 +190,9 @@ where
         if v2 != v { format!("{},RESET-DIFFERS", list(v)) } else { list(v) }
     });
     ctx.line("topo all", &r.unwrap_or("panic".into()));
-    if n > 0 {
+    if !ids.is_empty() {
         let k = 1 + rng.below(3);
-        let inits: Vec<usize> = (0..k).map(|_| rng.below(n)).collect();
+        let inits: Vec<usize> = (0..k).map(|_| pick_id(rng, ids)).collect();
         let r = catch(|| {
             let mut t = Topo::with_initials(g, inits.iter().map(|&s| conc(s)));
             let mut v = Vec::new();
@@ -180,13 +211,142 @@ macro_rules! with_ty {
     };
 }
 
-fn case_ty<Ty: petgraph::EdgeType>(ctx: &mut Ctx, rng: &mut Rng, ag: &AG) {
+/// the `case` line; the `enc=<name>` word is ignored by the driver (it answers `case <k>`)
+fn case_line(ctx: &mut Ctx, case: u64, enc: &str) {
+    ctx.raw(&format!("case {} enc={}", case, enc));
+}
+
+/// `&EdgeFiltered<G, F>` over a graph reference `g` whose node weights are the abstract ids: F keeps a
+/// random subset of the ABSTRACT edge ids (`eid_of`: concrete edge id -> abstract edge id).  The view
+/// is the abstract graph with the same nodes and only the kept edges, renumbered 0..k.
+fn run_edge_filtered<G>(ctx: &mut Ctx, rng: &mut Rng, ag: &AG, g: G, abs: &dyn Fn(G::NodeId) -> usize, conc: &dyn Fn(usize) -> G::NodeId, eid_of: &dyn Fn(G::EdgeId) -> usize)
+where
+    G: IntoEdgesDirected + IntoNodeIdentifiers + NodeIndexable + GraphProp + Visitable + Copy,
+    G::NodeId: PartialEq + Copy,
+{
+    let pct = *rng.pick(&[50u32, 70, 70, 90]);
+    let keep: Vec<bool> = (0..ag.edges.len()).map(|_| rng.chance(pct)).collect();
+    let mut newid = vec![usize::MAX; ag.edges.len()];
+    let mut fag = AG { directed: ag.directed, n: ag.n, edges: Vec::new() };
+    for (k, &e) in ag.edges.iter().enumerate() {
+        if keep[k] {
+            newid[k] = fag.edges.len();
+            fag.edges.push(e);
+        }
+    }
+    let ids: Vec<usize> = (0..ag.n).collect();
+    let f = EdgeFiltered::from_fn(g, |er: G::EdgeRef| keep[eid_of(er.id())]);
+    let fg = &f;
+    ctx.line(&view_line(&fag, fg, abs, &|er, _| newid[eid_of(er.id())]), "ok");
+    walk_basic(ctx, rng, fg, &ids, abs, conc);
+    walk_topo(ctx, rng, fg, &ids, abs, conc);
+}
+
+/// `&NodeFiltered<G, F>`: F keeps a random non-empty subset of the ABSTRACT node ids.  The view is the
+/// induced subgraph on the kept nodes (original ids; `nodes=` comes from the adaptor's own
+/// `node_identifiers`), its edges renumbered 0..k.  All start nodes are drawn from the kept ids.
+fn run_node_filtered<G>(ctx: &mut Ctx, rng: &mut Rng, ag: &AG, g: G, abs: &dyn Fn(G::NodeId) -> usize, conc: &dyn Fn(usize) -> G::NodeId, eid_of: &dyn Fn(G::EdgeId) -> usize)
+where
+    G: IntoEdgesDirected + IntoNodeIdentifiers + NodeIndexable + GraphProp + Visitable + Copy,
+    G::NodeId: PartialEq + Copy,
+{
+    let mut keepn: Vec<bool> = (0..ag.n).map(|_| rng.chance(75)).collect();
+    if ag.n > 0 && !keepn.iter().any(|&b| b) {
+        keepn[rng.below(ag.n)] = true;
+    }
+    let mut newid = vec![usize::MAX; ag.edges.len()];
+    let mut fag = AG { directed: ag.directed, n: ag.n, edges: Vec::new() };
+    for (k, &(a, b, w)) in ag.edges.iter().enumerate() {
+        if keepn[a] && keepn[b] {
+            newid[k] = fag.edges.len();
+            fag.edges.push((a, b, w));
+        }
+    }
+    let ids: Vec<usize> = (0..ag.n).filter(|&a| keepn[a]).collect();
+    let f = NodeFiltered::from_fn(g, |x: G::NodeId| keepn[abs(x)]);
+    let fg = &f;
+    ctx.line(&view_line(&fag, fg, abs, &|er, _| newid[eid_of(er.id())]), "ok");
+    walk_basic(ctx, rng, fg, &ids, abs, conc);
+    walk_topo(ctx, rng, fg, &ids, abs, conc);
+}
+
+/// weights of [storage type, reversed-stable, edgefiltered-graph, edgefiltered-stable,
+/// nodefiltered-graph, nodefiltered-stable, frozen-graph]
+const ADAPTOR_WEIGHTS: [u32; 7] = [78, 5, 4, 2, 4, 2, 5];
+
+fn case_ty<Ty: petgraph::EdgeType>(ctx: &mut Ctx, rng: &mut Rng, ag: &AG, case: u64) {
     let n = ag.n;
+    // adaptor or storage type?  Decided on a forked stream: the main stream of a case that stays on a
+    // storage type is the same as before the adaptors existed.
+    let adaptor = Rng::for_case(rng.clone().next(), "C08-adaptor", case).weighted(&ADAPTOR_WEIGHTS);
     let node_order = random_perm(rng, n);
     let edge_order = random_perm(rng, ag.edges.len());
     let mut inv = vec![0usize; n];
     for (i, &a) in node_order.iter().enumerate() {
         inv[a] = i;
+    }
+    let ids: Vec<usize> = (0..n).collect();
+    let ids = &ids[..];
+    match adaptor {
+        0 => {}
+        1 => {
+            // Reversed(&StableGraph) with vacancies: the abstract graph is the reverse
+            case_line(ctx, case, "reversed-stable");
+            let e = enc_stable::<Ty, u32>(rng, ag, &node_order, &edge_order, true);
+            let rag = AG { directed: ag.directed, n: ag.n, edges: ag.edges.iter().map(|&(a, b, w)| (b, a, w)).collect() };
+            let cidx: Vec<_> = { let mut v = vec![petgraph::graph::NodeIndex::<u32>::new(0); n]; for x in e.g.node_indices() { v[e.g[x]] = x; } v };
+            let g = Reversed(&e.g);
+            let abs = |x: petgraph::graph::NodeIndex<u32>| e.g[x];
+            let conc = |a: usize| cidx[a];
+            ctx.line(&view_line(&rag, g, &abs, &|er, _| e.eid[er.id().index()]), "ok");
+            walk_basic(ctx, rng, g, ids, &abs, &conc);
+            walk_topo(ctx, rng, g, ids, &abs, &conc);
+            return;
+        }
+        2 | 4 | 6 => {
+            let e = enc_graph::<Ty, u32>(ag, &node_order, &edge_order);
+            let g = &e.g;
+            let abs = |x: petgraph::graph::NodeIndex<u32>| g[x];
+            let conc = |a: usize| petgraph::graph::NodeIndex::<u32>::new(inv[a]);
+            let eid_of = |k: petgraph::graph::EdgeIndex<u32>| e.eid[k.index()];
+            match adaptor {
+                2 => {
+                    case_line(ctx, case, "edgefiltered-graph");
+                    run_edge_filtered(ctx, rng, ag, g, &abs, &conc, &eid_of);
+                }
+                4 => {
+                    case_line(ctx, case, "nodefiltered-graph");
+                    run_node_filtered(ctx, rng, ag, g, &abs, &conc, &eid_of);
+                }
+                _ => {
+                    // &Frozen<&Graph>: the visit traits of `&Frozen<G>` delegate to `G` by value, so G = &Graph
+                    case_line(ctx, case, "frozen-graph");
+                    let mut gr = g;
+                    let fz = Frozen::new(&mut gr);
+                    let fg = &fz;
+                    ctx.line(&view_line(ag, fg, &abs, &|er, _| eid_of(er.id())), "ok");
+                    walk_basic(ctx, rng, fg, ids, &abs, &conc);
+                    walk_topo(ctx, rng, fg, ids, &abs, &conc);
+                }
+            }
+            return;
+        }
+        _ => {
+            let e = enc_stable::<Ty, u32>(rng, ag, &node_order, &edge_order, true);
+            let g = &e.g;
+            let cidx: Vec<_> = { let mut v = vec![petgraph::graph::NodeIndex::<u32>::new(0); n]; for x in g.node_indices() { v[g[x]] = x; } v };
+            let abs = |x: petgraph::graph::NodeIndex<u32>| g[x];
+            let conc = |a: usize| cidx[a];
+            let eid_of = |k: petgraph::graph::EdgeIndex<u32>| e.eid[k.index()];
+            if adaptor == 3 {
+                case_line(ctx, case, "edgefiltered-stable");
+                run_edge_filtered(ctx, rng, ag, g, &abs, &conc, &eid_of);
+            } else {
+                case_line(ctx, case, "nodefiltered-stable");
+                run_node_filtered(ctx, rng, ag, g, &abs, &conc, &eid_of);
+            }
+            return;
+        }
     }
     let simple = ag.is_simple();
     let mut choices = vec![0, 1, 2, 7];
@@ -198,83 +358,92 @@ fn case_ty<Ty: petgraph::EdgeType>(ctx: &mut Ctx, rng: &mut Rng, ag: &AG) {
     }
     match *rng.pick(&choices) {
         0 => {
+            case_line(ctx, case, "graph-u32");
             let e = enc_graph::<Ty, u32>(ag, &node_order, &edge_order);
             let g = &e.g;
             let abs = |x: petgraph::graph::NodeIndex<u32>| g[x];
             let conc = |a: usize| petgraph::graph::NodeIndex::<u32>::new(inv[a]);
-            ctx.line(&view_line(ag, g, &abs, &|er, _| e.eid[petgraph::visit::EdgeRef::id(&er).index()]), "ok");
-            walk_basic(ctx, rng, g, n, &abs, &conc);
-            walk_topo(ctx, rng, g, n, &abs, &conc);
+            ctx.line(&view_line(ag, g, &abs, &|er, _| e.eid[er.id().index()]), "ok");
+            walk_basic(ctx, rng, g, ids, &abs, &conc);
+            walk_topo(ctx, rng, g, ids, &abs, &conc);
         }
         1 => {
+            case_line(ctx, case, "graph-u8");
             let e = enc_graph::<Ty, u8>(ag, &node_order, &edge_order);
             let g = &e.g;
             let abs = |x: petgraph::graph::NodeIndex<u8>| g[x];
             let conc = |a: usize| petgraph::graph::NodeIndex::<u8>::new(inv[a]);
-            ctx.line(&view_line(ag, g, &abs, &|er, _| e.eid[petgraph::visit::EdgeRef::id(&er).index()]), "ok");
-            walk_basic(ctx, rng, g, n, &abs, &conc);
-            walk_topo(ctx, rng, g, n, &abs, &conc);
+            ctx.line(&view_line(ag, g, &abs, &|er, _| e.eid[er.id().index()]), "ok");
+            walk_basic(ctx, rng, g, ids, &abs, &conc);
+            walk_topo(ctx, rng, g, ids, &abs, &conc);
         }
         2 => {
+            case_line(ctx, case, "stable");
             let e = enc_stable::<Ty, u32>(rng, ag, &node_order, &edge_order, true);
             let g = &e.g;
             let cidx: Vec<_> = { let mut v = vec![petgraph::graph::NodeIndex::<u32>::new(0); n]; for x in g.node_indices() { v[g[x]] = x; } v };
             let abs = |x: petgraph::graph::NodeIndex<u32>| g[x];
             let conc = |a: usize| cidx[a];
-            ctx.line(&view_line(ag, g, &abs, &|er, _| e.eid[petgraph::visit::EdgeRef::id(&er).index()]), "ok");
-            walk_basic(ctx, rng, g, n, &abs, &conc);
-            walk_topo(ctx, rng, g, n, &abs, &conc);
+            ctx.line(&view_line(ag, g, &abs, &|er, _| e.eid[er.id().index()]), "ok");
+            walk_basic(ctx, rng, g, ids, &abs, &conc);
+            walk_topo(ctx, rng, g, ids, &abs, &conc);
         }
         3 => {
+            case_line(ctx, case, "matrix");
             let g0 = enc_matrix::<Ty>(rng, ag, &node_order, &edge_order, true);
             let g = &g0;
             let cidx: Vec<_> = { let mut v = vec![petgraph::matrix_graph::NodeIndex::new(0); n]; for x in g.node_identifiers() { v[*g.node_weight(x)] = x; } v };
             let abs = |x: petgraph::matrix_graph::NodeIndex| *g.node_weight(x);
             let conc = |a: usize| cidx[a];
-            ctx.line(&view_line_out_only(ag, g, &abs, &|er, used| { let (s, t) = (abs(petgraph::visit::EdgeRef::source(&er)), abs(petgraph::visit::EdgeRef::target(&er))); eid_by_lookup(ag, s, t, *petgraph::visit::EdgeRef::weight(&er), used) }), "ok");
-            walk_basic(ctx, rng, g, n, &abs, &conc);
+            ctx.line(&view_line_out_only(ag, g, &abs, &|er, used| { let (s, t) = (abs(er.source()), abs(er.target())); eid_by_lookup(ag, s, t, *er.weight(), used) }), "ok");
+            walk_basic(ctx, rng, g, ids, &abs, &conc);
         }
         4 => {
+            case_line(ctx, case, "graphmap");
             let g0 = enc_map::<Ty>(ag, &node_order, &edge_order);
             let g = &g0;
             let abs = |x: usize| x;
             let conc = |a: usize| a;
-            ctx.line(&view_line(ag, g, &abs, &|er, used| eid_by_lookup(ag, petgraph::visit::EdgeRef::source(&er), petgraph::visit::EdgeRef::target(&er), *petgraph::visit::EdgeRef::weight(&er), used)), "ok");
-            walk_basic(ctx, rng, g, n, &abs, &conc);
-            walk_topo(ctx, rng, g, n, &abs, &conc);
+            ctx.line(&view_line(ag, g, &abs, &|er, used| eid_by_lookup(ag, er.source(), er.target(), *er.weight(), used)), "ok");
+            walk_basic(ctx, rng, g, ids, &abs, &conc);
+            walk_topo(ctx, rng, g, ids, &abs, &conc);
         }
         5 => {
+            case_line(ctx, case, "csr");
             let g0 = enc_csr::<Ty>(ag, &node_order, &edge_order);
             let g = &g0;
             let abs = |x: u32| g[x];
             let conc = |a: usize| inv[a] as u32;
-            ctx.line(&view_line_out_only(ag, g, &abs, &|er, used| eid_by_lookup(ag, abs(petgraph::visit::EdgeRef::source(&er)), abs(petgraph::visit::EdgeRef::target(&er)), *petgraph::visit::EdgeRef::weight(&er), used)), "ok");
-            walk_basic(ctx, rng, g, n, &abs, &conc);
+            ctx.line(&view_line_out_only(ag, g, &abs, &|er, used| eid_by_lookup(ag, abs(er.source()), abs(er.target()), *er.weight(), used)), "ok");
+            walk_basic(ctx, rng, g, ids, &abs, &conc);
         }
         6 => {
+            case_line(ctx, case, "list");
             let g0 = enc_list(ag, &node_order, &edge_order);
             let g = &g0;
             let abs = |x: u32| node_order[x as usize];
             let conc = |a: usize| inv[a] as u32;
-            ctx.line(&view_line_out_only(ag, g, &abs, &|er, used| eid_by_lookup(ag, abs(petgraph::visit::EdgeRef::source(&er)), abs(petgraph::visit::EdgeRef::target(&er)), *petgraph::visit::EdgeRef::weight(&er), used)), "ok");
-            walk_basic(ctx, rng, g, n, &abs, &conc);
+            ctx.line(&view_line_out_only(ag, g, &abs, &|er, used| eid_by_lookup(ag, abs(er.source()), abs(er.target()), *er.weight(), used)), "ok");
+            walk_basic(ctx, rng, g, ids, &abs, &conc);
         }
         _ => {
             // Reversed(&Graph): the abstract graph is the reverse
+            case_line(ctx, case, "reversed-graph");
             let e = enc_graph::<Ty, u32>(ag, &node_order, &edge_order);
             let rag = AG { directed: ag.directed, n: ag.n, edges: ag.edges.iter().map(|&(a, b, w)| (b, a, w)).collect() };
             let g = Reversed(&e.g);
             let abs = |x: petgraph::graph::NodeIndex<u32>| e.g[x];
             let conc = |a: usize| petgraph::graph::NodeIndex::<u32>::new(inv[a]);
-            ctx.line(&view_line(&rag, g, &abs, &|er, _| e.eid[petgraph::visit::EdgeRef::id(&er).index()]), "ok");
-            walk_basic(ctx, rng, g, n, &abs, &conc);
-            walk_topo(ctx, rng, g, n, &abs, &conc);
+            ctx.line(&view_line(&rag, g, &abs, &|er, _| e.eid[er.id().index()]), "ok");
+            walk_basic(ctx, rng, g, ids, &abs, &conc);
+            walk_topo(ctx, rng, g, ids, &abs, &conc);
         }
     }
 }
 
 /// directed MatrixGraph implements the directed traits too: full view and Topo
-fn case_matrix_directed(ctx: &mut Ctx, rng: &mut Rng, ag: &AG) {
+fn case_matrix_directed(ctx: &mut Ctx, rng: &mut Rng, ag: &AG, case: u64) {
+    case_line(ctx, case, "matrix-directed");
     let n = ag.n;
     let node_order = random_perm(rng, n);
     let edge_order = random_perm(rng, ag.edges.len());
@@ -283,23 +452,23 @@ fn case_matrix_directed(ctx: &mut Ctx, rng: &mut Rng, ag: &AG) {
     let cidx: Vec<_> = { let mut v = vec![petgraph::matrix_graph::NodeIndex::new(0); n]; for x in g.node_identifiers() { v[*g.node_weight(x)] = x; } v };
     let abs = |x: petgraph::matrix_graph::NodeIndex| *g.node_weight(x);
     let conc = |a: usize| cidx[a];
+    let ids: Vec<usize> = (0..n).collect();
     // edges_directed(_, Incoming) of MatrixGraph reports swapped endpoints (open finding D6, judged by
     // C06): take the other endpoint positionally so that the view is the one the walkers see
-    ctx.line(&view_line(ag, g, &abs, &|er, used| { let (s, t) = (abs(petgraph::visit::EdgeRef::source(&er)), abs(petgraph::visit::EdgeRef::target(&er))); let k = eid_by_lookup(ag, s, t, *petgraph::visit::EdgeRef::weight(&er), used); if k != usize::MAX { k } else { eid_by_lookup(ag, t, s, *petgraph::visit::EdgeRef::weight(&er), used) } }), "ok");
-    walk_basic(ctx, rng, g, n, &abs, &conc);
-    walk_topo(ctx, rng, g, n, &abs, &conc);
+    ctx.line(&view_line(ag, g, &abs, &|er, used| { let (s, t) = (abs(er.source()), abs(er.target())); let k = eid_by_lookup(ag, s, t, *er.weight(), used); if k != usize::MAX { k } else { eid_by_lookup(ag, t, s, *er.weight(), used) } }), "ok");
+    walk_basic(ctx, rng, g, &ids, &abs, &conc);
+    walk_topo(ctx, rng, g, &ids, &abs, &conc);
 }
 
 pub fn run(ctx: &mut Ctx, case: u64) {
     let mut rng = Rng::for_case(ctx.seed, "C08", case);
-    ctx.raw(&format!("case {}", case));
     let directed = rng.chance(60);
     let max_n = if ctx.tier_thorough { 12 } else { 9 };
     let opts = if rng.chance(60) { GenOpts::multi(max_n, 1, 1) } else { GenOpts { loops: rng.chance(50), ..GenOpts::simple(max_n) } };
     let (ag, _fam) = gen_graph(&mut rng, directed, opts);
     if directed && ag.is_simple() && rng.chance(12) {
-        case_matrix_directed(ctx, &mut rng, &ag);
+        case_matrix_directed(ctx, &mut rng, &ag, case);
         return;
     }
-    with_ty!(directed, case_ty, ctx, &mut rng, &ag);
+    with_ty!(directed, case_ty, ctx, &mut rng, &ag, case);
 }
